@@ -180,6 +180,15 @@ impl Recv {
                 self.last_processed_id = frame.stream_id();
             }
 
+            // A pushed stream is only counted once its response arrives, and
+            // nothing stops a server from having more promises answered than
+            // it may have streams open: refuse instead of tripping the
+            // assertion in `inc_num_recv_streams`.
+            if !counts.can_inc_num_recv_streams() {
+                proto_err!(stream: "stream exceeds the concurrency limit; stream={:?}", stream.id);
+                return Err(Error::library_reset(stream.id, Reason::REFUSED_STREAM).into());
+            }
+
             // Increment the number of concurrent streams
             counts.inc_num_recv_streams(stream);
         }
